@@ -190,6 +190,8 @@ def build(pp, prog, use_hook=None) -> Built:
             v = ref(a[0]) | ""
         elif op == "&":
             v = ref(a[0]) & ref(a[1])
+        elif op == "Each":
+            v = pp.Each([ref(x) for x in a[0]])
         elif op == "alias":         # another name for the same object
             v = ref(a[0])
         elif op == "call":          # expr()
